@@ -121,7 +121,13 @@ def run(report: Report, tier, seed):
                   "label uniqueness / placeholder elimination / terminators are checked per generated program (bounded), not yet by contracts on flattenBlocks / resolveSubroutines")
     op_table(report)
     run_contracts(report, [("contracts.c04_verify", "VerifyOpsForVersion", "O4.1a"), ("contracts.c04_verify", "VerifyOpsForMode", "O4.1b"),
-                           ("contracts.c04_verify", "VerifyProgramVersion", "O4.1c")])
+                           ("contracts.c04_verify", "VerifyProgramVersion", "O4.1c"),
+                           ("contracts.c01_substring", "SubstringConst", "O4.8a"), ("contracts.c01_substring", "ExtractConst", "O4.8b"),
+                           ("contracts.c01_substring", "SuffixConst", "O4.8c"), ("contracts.c01_flatten", "FlattenBlocks", "O4.5")])
+    from . import substring_native
+    gn, gp = substring_native.grid([2, 4, 5, 10] if tier == "quick" else range(2, 11))
+    report.bounded.append(Bounded(function="Substring / Extract / Suffix with constant indices", contract="legal immediates; documented window / failure on the spec AVM",
+                                  bound="start, end/length in {0,1,2,100,254..257,299..301,511,512,70000}^2 x versions", cases=gn, distinct_nontrivial=gn, failures=len(gp)))
     n = 100 if tier == "quick" else 1200
     specs = []
     for i in range(n):
@@ -146,7 +152,18 @@ def run(report: Report, tier, seed):
     report.bounded.append(Bounded(function="immediate-range / version probes", contract="rejected with a PyTeal error or emitted legally",
                                   bound=f"{len(PROBES)} hand-written probes", cases=len(PROBES), distinct_nontrivial=len(PROBES), failures=len(pbad)))
     report.extra["explanation"] = "E: Op/TxnField/GlobalField tables vs langspec; P: verifyOpsForVersion/Mode/ProgramVersion (pyvc); B: structural validation of generated programs and probes"
-    report.settle_refuted(None)
+    def search(fn, obs):
+        if "substring" in fn:
+            for o in obs:
+                hit = substring_native.from_model(fn, o.model if isinstance(o.model, dict) else None)
+                if hit:
+                    return hit
+            return {"input": {"grid": True}, "what": gp[0]} if gp else None
+        return None
+    report.settle_undecided(search)
+    report.settle_refuted(search)
+    if gp and not any("substring" in v.what.lower() or "extract" in v.what.lower() or "suffix" in v.what.lower() for v in report.violations):
+        report.violation(Violation(key=f"substring-grid:{gp[0][:60]}", what=gp[0], replay={"kind": "grid", "problem": gp[0]}, confirmed_native=True))
     for s, r in bad[:2]:
         report.violation(Violation(key=f"tealcheck:{s['seed']}:{s['version']}", what=f"illegal TEAL emitted: {r['problems'][0]['problems'][:2]}",
                                    replay={"kind": "generated", "spec": s, "problems": r["problems"][:1]}, confirmed_native=True))
